@@ -1,6 +1,7 @@
 package models
 
 import (
+	authtypes "github.com/cosmos/cosmos-sdk/x/auth/types"
 	"bytes"
 	"context"
 	"errors"
@@ -197,7 +198,23 @@ func (b *Bank) HasSupply(ctx context.Context, denom string) bool {
 	return b.st(ctx).Has(supKey(denom))
 }
 
+// KnownModules are the module accounts whose address-based balance queries are
+// answered from the module balance (the real bank keeps one balance per address).
+var KnownModules = []string{"skyway", "distribution", "treasury", "tokenfactory", "paloma", "gov"}
+
+func moduleOf(addr sdk.AccAddress) (string, bool) {
+	for _, m := range KnownModules {
+		if addr.Equals(authtypes.NewModuleAddress(m)) {
+			return m, true
+		}
+	}
+	return "", false
+}
+
 func (b *Bank) GetBalance(ctx context.Context, addr sdk.AccAddress, denom string) sdk.Coin {
+	if m, ok := moduleOf(addr); ok {
+		return sdk.Coin{Denom: denom, Amount: getInt(b.st(ctx), modKey(m, denom))}
+	}
 	return sdk.Coin{Denom: denom, Amount: getInt(b.st(ctx), accKey(addr, denom))}
 }
 
